@@ -49,22 +49,42 @@ const pschedParts = 3
 
 // pschedRun runs part `part` of the pairing-schedule scenarios of a property and files the results under the check.
 func pschedRun(c *fw.Ctx, prop string, part int) {
+	tier := "quick"
+	if c.Thorough() {
+		tier = "thorough"
+	}
+	if part >= pschedParts {
+		// the same scenarios with a scheduling point before every statement of hc's packages (the binary built with
+		// the yield overlay), one preemption — run by other worker shards than the log-statement exploration
+		yb := interfBinary()
+		if !fileExists(yb) {
+			c.Note("pairing-handler interleavings at statement level skipped: " + yb + " not built")
+			return
+		}
+		cmd := exec.Command(yb, "pairsched", tier, fmt.Sprint(part-pschedParts), fmt.Sprint(pschedParts), c.Scratch, prop)
+		cmd.Env = append(os.Environ(), "PSCHED_STATEMENTS=1")
+		out, err := cmd.CombinedOutput()
+		pschedFile(c, out, err)
+		return
+	}
 	bin := pschedBinary()
 	if _, err := os.Stat(bin); err != nil {
 		c.Note("pairing-handler interleavings skipped: " + bin + " not built")
 		return
 	}
-	tier := "quick"
-	if c.Thorough() {
-		tier = "thorough"
-	}
 	out, err := exec.Command(bin, "pairsched", tier, fmt.Sprint(part), fmt.Sprint(pschedParts), c.Scratch, prop).CombinedOutput()
 	pschedFile(c, out, err)
 }
 
+func fileExists(p string) bool { _, err := os.Stat(p); return err == nil }
+
 func pschedReplay(c *fw.Ctx, cas pschedCase) {
 	j, _ := json.Marshal(cas)
-	out, err := exec.Command(pschedBinary(), "pairsched-replay", c.Scratch, string(j)).CombinedOutput()
+	bin := pschedBinary()
+	if strings.Contains(cas.Scenario, "[statement-level scheduling points]") {
+		bin = interfBinary()
+	}
+	out, err := exec.Command(bin, "pairsched-replay", c.Scratch, string(j)).CombinedOutput()
 	pschedFile(c, out, err)
 }
 
